@@ -32,18 +32,23 @@ func recvTypeString(fn *ssa.Function) string {
 }
 
 func lookupIntrinsic(fn *ssa.Function, name string) intrinsic {
+	i, _ := lookupIntrinsic2(fn, name)
+	return i
+}
+
+func lookupIntrinsic2(fn *ssa.Function, name string) (intrinsic, bool) {
 	if f, ok := intrinsicsByName[name]; ok {
-		return f
+		return f, false
 	}
 	if fn.Signature.Recv() == nil && fn.Parent() == nil {
 		if f, ok := harnessAPI[fn.Name()]; ok && fn.Blocks == nil {
-			return f
+			return f, false
 		}
 	}
 	rt := recvTypeString(fn)
 	switch rt {
 	case "*github.com/sirupsen/logrus.Entry", "*github.com/sirupsen/logrus.Logger":
-		return logrusIntrinsic(fn.Name())
+		return logrusIntrinsic(fn.Name()), false
 	}
 	if fn.Pkg != nil {
 		switch fn.Pkg.Pkg.Path() {
@@ -51,7 +56,16 @@ func lookupIntrinsic(fn *ssa.Function, name string) intrinsic {
 			// inert packages: every function returns the zero value of its results, but only while a
 			// package initialiser runs (or for spew diagnostics); anywhere else it is unsupported
 			path := fn.Pkg.Pkg.Path()
-			return func(m *Machine, fr *frame, fn *ssa.Function, args []value) (value, bool) {
+			return inertFn(path), true
+		}
+	}
+	return nil, false
+}
+
+func inertFn(path string) intrinsic {
+	return func(m *Machine, fr *frame, fn *ssa.Function, args []value) (value, bool) {
+		{
+			{
 				if m.initDepth == 0 && path != "github.com/davecgh/go-spew/spew" {
 					m.unsupported("call into un-modelled package: %s", fn.String())
 				}
@@ -59,7 +73,6 @@ func lookupIntrinsic(fn *ssa.Function, name string) intrinsic {
 			}
 		}
 	}
-	return nil
 }
 
 func logrusIntrinsic(name string) intrinsic {
@@ -568,13 +581,9 @@ func init() {
 		return m.sprintf(f, as), true
 	})
 	reg("fmt.Errorf", func(m *Machine, fr *frame, fn *ssa.Function, args []value) (value, bool) {
+		// diagnostics only: the arguments are not formatted (their String()/Error() methods are not run)
 		f, _ := args[0].(string)
-		s := m.sprintf(strings.ReplaceAll(f, "%w", "%v"), ifaceSlice(args[1]))
-		msg, ok := s.(string)
-		if !ok {
-			msg = "<symbolic error message: " + f + ">"
-		}
-		return m.mkError(msg), true
+		return m.mkError(f), true
 	})
 	for _, n := range []string{"fmt.Printf", "fmt.Println", "fmt.Print", "fmt.Fprintf", "fmt.Fprintln", "fmt.Fprint"} {
 		reg(n, func(m *Machine, fr *frame, fn *ssa.Function, args []value) (value, bool) {
@@ -584,12 +593,7 @@ func init() {
 	perr := "github.com/pkg/errors."
 	reg(perr+"Errorf", func(m *Machine, fr *frame, fn *ssa.Function, args []value) (value, bool) {
 		f, _ := args[0].(string)
-		s := m.sprintf(f, ifaceSlice(args[1]))
-		msg, ok := s.(string)
-		if !ok {
-			msg = "<symbolic error message: " + f + ">"
-		}
-		return m.mkError(msg), true
+		return m.mkError(f), true
 	})
 	reg(perr+"New", func(m *Machine, fr *frame, fn *ssa.Function, args []value) (value, bool) {
 		return m.mkError(m.concreteStr(args[0], "errors.New")), true
@@ -848,6 +852,9 @@ func init() {
 		return nilErr(), true
 	})
 	reg("(*net.conn).Close", intrinsicsByName["(*net.UDPConn).Close"])
+	reg("github.com/khirono/go-nl.IfnameToIndex", func(m *Machine, fr *frame, fn *ssa.Function, args []value) (value, bool) {
+		return tuple{uint64(7), nilErr()}, true
+	})
 	reg("net.ParseCIDR", func(m *Machine, fr *frame, fn *ssa.Function, args []value) (value, bool) {
 		s, ok := args[0].(string)
 		if !ok {
